@@ -580,10 +580,19 @@ inductive FReach (cfg : FCfg) : FState → Prop where
 /-! ## Lazy = sync.OnceValue, by its specification (if the source says `return sync.OnceValue(f)`;
 otherwise nothing is known about it and the model lets every call run `f`) -/
 
+/-- How the single run of `f` ended — what `sync.OnceValue` hands to every caller: "If f panics, the
+returned function will panic with the same value on every call." -/
+inductive LOut where
+  /-- `f` returned `v` -/
+  | val (v : Int)
+  /-- `f` panicked with `v` -/
+  | pan (v : Int)
+  deriving DecidableEq, Repr
+
 inductive OnceSt where
   | fresh
   | running
-  | done (v : Int)
+  | done (o : LOut)
   deriving DecidableEq, Repr
 
 inductive CallPc where
@@ -592,7 +601,8 @@ inductive CallPc where
   | inF
   /-- blocked in the `sync.Once` until the first call finishes -/
   | waiting
-  | done (v : Int)
+  /-- the call has ended: it returned `v` (`.val v`) or panicked with `v` (`.pan v`) -/
+  | done (o : LOut)
   deriving DecidableEq, Repr
 
 structure LState where
@@ -604,8 +614,9 @@ structure LState where
 
 inductive LLabel where
   | enter (j : Nat)
-  /-- `f` returns `v` -/
-  | finish (j : Nat) (v : Int)
+  /-- the run of `f` on caller `j`'s goroutine ends: `f` returns `v` (`.val v`) or panics with `v`
+  (`.pan v`; `sync.OnceValue` recovers the value, marks the `Once` done and re-panics) -/
+  | finish (j : Nat) (o : LOut)
   | wake (j : Nat)
   deriving DecidableEq, Repr
 
@@ -619,15 +630,15 @@ def lstep (once : Bool) (s : LState) : LLabel → Option LState
       match s.once with
       | .fresh => some { once := .running, runs := s.runs + 1, callers := s.callers.set j .inF }
       | .running => some { s with callers := s.callers.set j .waiting }
-      | .done v => some { s with callers := s.callers.set j (.done v) }
+      | .done o => some { s with callers := s.callers.set j (.done o) }
     | _ => none
-  | .finish j v =>
+  | .finish j o =>
     match s.callers[j]? with
-    | some .inF => some { s with once := .done v, callers := s.callers.set j (.done v) }
+    | some .inF => some { s with once := .done o, callers := s.callers.set j (.done o) }
     | _ => none
   | .wake j =>
     match s.callers[j]?, s.once with
-    | some .waiting, .done v => some { s with callers := s.callers.set j (.done v) }
+    | some .waiting, .done o => some { s with callers := s.callers.set j (.done o) }
     | _, _ => none
 
 inductive LReach (once : Bool) : LState → Prop where
